@@ -672,7 +672,8 @@ fn mode_intern(f: &[&str]) -> String {
                         h.verif_raw()
                     }
                     _ => {
-                        let h = pi.intern(Path::new(std::str::from_utf8(&text).unwrap()));
+                        // paths are byte strings on this platform: they need not be UTF-8
+                        let h = pi.intern(Path::new(<std::ffi::OsStr as std::os::unix::ffi::OsStrExt>::from_bytes(&text)));
                         for (k, old) in hp.iter().enumerate() {
                             if (*old == h) != (issued_texts[k] == text) {
                                 eqbad += 1;
@@ -749,6 +750,17 @@ fn mode_intern(f: &[&str]) -> String {
                         }
                         locs.push(format!("{k}:{off}"));
                     }
+                }
+            }
+            // the public accessor: every handle ever issued resolves, through get(), to exactly its text
+            for (k, t) in issued_texts.iter().enumerate() {
+                let good = match kind {
+                    "bytes" => bi.get(hb[k]) == Some(&t[..]),
+                    "str" => si.get(hs[k]) == std::str::from_utf8(t).ok(),
+                    _ => pi.get(hp[k]).map(|p| <std::ffi::OsStr as std::os::unix::ffi::OsStrExt>::as_bytes(p.as_os_str()).to_vec()) == Some(t.clone()),
+                };
+                if !good {
+                    eqbad += 1;
                 }
             }
             let caps: Vec<String> = bufs.iter().map(|(_, c, l)| format!("{c}/{l}")).collect();
